@@ -91,6 +91,23 @@ def _ctx(scn, idx):
         sig['closed_by'] = closed_by or 'both_complete'
     if e.get('ev') == 'quiesce':
         sig['open_kinds'] = sorted(set(sid_kind.get((e['ep'], s), '?') for s in e.get('streams', [])))
+        # how each still-registered stream came to be considered terminated: a CANCEL or ERROR was seen on it, or it just completed
+        reasons = set()
+        for s in e.get('streams', []):
+            mine = [x for x in ev[:idx] if x['ep'] == e['ep'] and x['sid'] == s and x['ev'] in ('enq', 'rx')]
+            seen = set(x['ft'] for x in mine)
+            kind = sid_kind.get((e['ep'], s), '?')
+            own_c = any(x['ev'] == 'enq' and x['C'] for x in mine) or kind in ('rr', 'stream', 'fnf') and any(
+                x['ev'] == 'enq' and x['ft'].startswith('REQUEST_') and x['ft'] != 'REQUEST_N' for x in mine)
+            peer_c = any(x['ev'] == 'rx' and x['C'] and not x['F'] for x in mine) or kind in ('rr', 'stream', 'fnf') and any(
+                x['ev'] == 'rx' and x['ft'].startswith('REQUEST_') and x['ft'] != 'REQUEST_N' for x in mine)
+            if 'CANCEL' in seen:
+                reasons.add('cancel')
+            elif 'ERROR' in seen:
+                reasons.add('error')
+            elif own_c and peer_c:
+                reasons.add('complete')
+        sig['open_reasons'] = sorted(reasons)
     if e.get('ev') in ('cb_next', 'cb_complete', 'cb_error', 'cb_future'):
         prior = [('cb_next_complete' if x['ev'] == 'cb_next' else x['ev']) for x in ev[:idx - 1]
                  if x.get('iid') == e.get('iid') and x.get('role') == e.get('role')
